@@ -26,9 +26,10 @@ RULES = {
     "R5": "supplied mapping: validated (dense) before use, passed as existing_mapping, table built from it verbatim; validator's definition",
     "R6": "column stacking and inverse split/transpose in Screen.__init__",
     "R7": "ExperimentSpace sizes from the mapping tuple, excluding only the sentinel",
+    "R9": "a construction that re-uses a screen's treatment mapping passes that screen's control name with it (the encoder trusts the mapping's sentinel rows; the constructor's control name defaults to the empty name)",
     "R8": "the derived screen attributes this property's code relies on (sample_space_size, treatment_space_size, unique_treatments, n_unique_treatments, unique_sample_ids, n_unique_samples) have their documented definitions in ScreenBase and every override",
 }
-MIN = {"R1": 4, "R2": 2, "R3": 2, "R4": 4, "R5": 6, "R6": 2, "R7": 4, "R8": 6}
+MIN = {"R1": 4, "R2": 2, "R3": 2, "R4": 4, "R5": 6, "R6": 2, "R7": 4, "R8": 6, "R9": 5}
 TRUSTED = ["pandas drop_duplicates / sort_values / reset_index / merge(how='left') semantics", "rank lemma: for a non-control row at position p, p - #controls at positions <= p is its rank among non-controls"]
 TECHNIQUE = "def-use provenance of returned tuples, guard dominance, relational and polynomial normal forms against forms written from the statement"
 LEVEL_TEXT = ("The bijection claim rests on a handful of shape facts (one table for ids and mapping, the control predicate, the "
@@ -1021,7 +1022,11 @@ def r_derived(ctx):
     common.derived_attributes(ctx, "R8", ['sample_space_size', 'treatment_space_size', 'unique_treatments', 'n_unique_treatments', 'unique_sample_ids', 'n_unique_samples'])
 
 
-RULE_FUNCS = [r1, r2, r3, r4, r5, r6, r7, r_derived]
+def r9(ctx):
+    common.control_name_travels_with_mapping(ctx, "R9")
+
+
+RULE_FUNCS = [r1, r2, r3, r4, r5, r6, r7, r_derived, r9]
 
 
 def run(ctx):
@@ -1038,6 +1043,10 @@ def _rep(a, b):
 
 
 WITNESSES = [
+    ("combinatoric space built without the control name (D7 re-introduced)", "batchie.models.main",
+     _rep("        control_treatment_name=screen.control_treatment_name,\n        sample_mapping=screen.sample_mapping,", "        sample_mapping=screen.sample_mapping,"), ["R9"]),
+    ("mask_screen drops the control name", "batchie.retrospective",
+     _rep("        control_treatment_name=screen.control_treatment_name,\n        observation_mask=np.zeros(screen.size, dtype=bool),", "        observation_mask=np.zeros(screen.size, dtype=bool),"), ["R9"]),
     ("dose <= 0 -> dose < 0", "batchie.data", _rep('dose_is_zero = df_unique["dose"] <= 0', 'dose_is_zero = df_unique["dose"] < 0'), ["R3"]),
     ("cumsum + 1", "batchie.data", _rep("df_unique.index - df_unique.is_control.cumsum()", "df_unique.index - df_unique.is_control.cumsum() + 1"), ["R4"]),
     ("supplied mapping validation skipped", "batchie.data",
